@@ -14,6 +14,8 @@ package fastcgi
 //@ func (*streamWriter).Write
 //@   requires w != nil
 //@   ensures [all_or_error] result1 == nil ==> result0 == len(old(p))
+//@   // an empty record ends a FastCGI stream: only Close writes one, never Write (also when len(p) is a multiple of the record size)
+//@   at call (*FCGIClient).writeRecord before [every_record_of_a_write_carries_bytes] 1 <= len(arg2) && len(arg2) <= 65500 && arg1 == w.recType
 //@   loop 1 invariant 0 <= nn && nn + len(p) == len(old(p)) && p == old(p)[nn:]
 //@   loop 1 decreases len(p)
 
